@@ -258,7 +258,8 @@ def check_counter_pairing(prog, r):
             r.fail(prog.name(k), "no-fetch_sub", "removes a peer's paths but never decrements the per-session prefix counter", view(prog, k).loc())
             continue
         for fv, bi in subs:
-            gs = flat_guards(fv, bi)
+            # named locals are looked through: the guard is "no other entry of this peer left" = an Iterator::any(..) that is false
+            gs = flat_guards(fv, bi, branches(fv, Renderer(fv, depth=12, through_names=True)))
             txt = " & ".join("%s∈%s" % (show(g, 50), sorted(l)) for g, l, h in gs)
             still = any(("peer_still_has_path" in expr_vars(g) or any(c.endswith("Iterator::any") for c in expr_calls(g))) and l == {"false"} for g, l, h in gs)
             if still:
@@ -271,6 +272,11 @@ def check_counter_pairing(prog, r):
         for kk in prog.with_closures(k):
             fv = view(prog, kk)
             ls = [l for l, nm in fv.local_name.items() if nm == "peer_still_has_path"]
+            if not ls:
+                # renamed: the bool local that guards the fetch_sub and is defined by an Iterator::any over the entry list
+                for l, nm in fv.local_name.items():
+                    if l < len(fv.f["locals"]) and fv.f["locals"][l] == "bool" and any(si == "t" and any(n_.endswith("Iterator::any") for n_ in callee_names(s_)) for b_, si, s_ in fv.defs().get(l, [])):
+                        ls.append(l)
             if not ls:
                 continue
             removals = [b for b, t in fv.calls(re.compile(r".*Vec::<T(, A)?>::(retain|retain_mut|remove|swap_remove|drain)$")) if "RibEntry" in t["f"].get("ga", "")]
